@@ -6,4 +6,9 @@ package doapprove
 
 //vc:func Main
 //vc:  requires[C13] InvAll(statusFile, hasOK, tOK, pOK, hasCmp, tCmp, pCmp, chg, now)
+//vc:  assert[C09] at "status.SetApprove(" @failedRecordedIffStatusNonzero arg3 == (stat != 0)
+//vc:  assert[C09] at "status.SetCompare(" @diffRecordedIfStatusNonzero stat != 0 ==> arg3
+//vc:  assert[C09] at "END:" @historyEndTruthful (okMsg == "FAILED") == (stat != 0) && (okMsg == "OK" || okMsg == "FAILED")
+//vc:  invariant[C09] 1 "for _, line := range lines" (stat != 0 ==> errors) && failed == (stat != 0)
+//vc:  ensures[C09] @exitStatusNonzeroOnFailure stat != 0 ==> result == 1
 //vc:  assert[C11] at "device.ApproveOrCompare(" @verbSelectsPath arg0 == (action == "compare") && (action == "compare" || action == "approve")
